@@ -27,7 +27,9 @@ for p in props:
         "level_note": mf.get("note", ""),
         "technique": mf.get("technique", "Lean 4 theorems over a model + differential correspondence with the Go code"),
     })
-hooks = json.load(open(os.path.join(V, "hooks.json"))) if os.path.exists(os.path.join(V, "hooks.json")) else {"source_commits": []}
+hooks = {"source_commits": []}
+for hf in sorted(glob.glob(os.path.join(V, "hooks.d", "*.json"))):
+    hooks["source_commits"] += json.load(open(hf)).get("source_commits", [])
 man = {
     "version": 1,
     "setup_cmd": "./setup.sh",
